@@ -157,7 +157,7 @@ def Books.newClient (b : Books) (slot : Nat) (dialMoves : List Nat) : Books :=
 
 /-- what a statement asks of the scheduler -/
 inductive Out
-  | cont | blocked | refuse | admit | close (c : Nat)
+  | cont | blocked | refuse | pass | close (c : Nat)
   deriving DecidableEq, Repr
 
 def slotOf (b : Books) (k : Nat) : Nat := if b.nSlots > 1 then k else 0
@@ -181,7 +181,7 @@ def bookStmt (pg : Progs) (led : Led) (b : Books) (t : Task) : Stmt → Books ×
   | .chkState => match t.c with
     | some c => if (b.client c).state = muxConnected then (b, t.c, .cont) else ({ b with lastRes := .connFail }, t.c, .refuse)
     | none => ({ b with lastRes := .connFail }, t.c, .refuse)
-  | .chkBreaker => if canCreate led.maxReq led.reqCur then (b, t.c, .admit) else ({ b with lastRes := .overflow }, t.c, .refuse)
+  | .chkBreaker => if canCreate led.maxReq led.reqCur then (b, t.c, .pass) else ({ b with lastRes := .overflow }, t.c, .refuse)
   | .place => ({ b with lastRes := .ok (t.c.getD 0) }, t.c, .cont)
   | .delIfGoAway =>
     match b.slots 0 with
@@ -239,7 +239,7 @@ def stepTask (s : State) (k : Nat) : State :=
       match bookStmt s.pg s.led s.bk t st, t.pre with
       | (_, _, .blocked), _ => s
       | (b, c', .refuse), true => { s with bk := b, tasks := s.tasks.set k { t with c := c', rest := [], pre := false } }
-      | (b, c', .admit), true => { s with bk := b, tasks := s.tasks.set k { t with c := c', rest := s.pg.nsPost, pre := false } }
+      | (b, c', .pass), true => { s with bk := b, tasks := s.tasks.set k { t with c := c', rest := s.pg.nsPost, pre := false } }
       | (b, c', .close c), false =>
         if (b.client c).netOpen then
           { s with bk := b.updC c (fun cl => { cl with netOpen := false }), led := (ledStmt s.led c' st).drop c,
